@@ -82,27 +82,52 @@ CASES = [
 ]
 
 PIDS = ["s", "p2", "p3"]
+# identifier / configuration variants (thorough tiers): different pid lengths change what a torn in-place
+# rewrite leaves behind, other shard shapes and algorithms change the directory-creation steps
+VARIANTS = [
+    {"pids": {"s": "s", "p2": "p2", "p3": "p3"}, "cfg": (3, 2, "SHA-256")},
+    {"pids": {"s": "subject/with/a-long.identifier-0001", "p2": "ab", "p3": "abc"}, "cfg": (1, 1, "MD5")},
+    {"pids": {"s": "x", "p2": "matthew", "p3": "matt"}, "cfg": (2, 4, "SHA-512")},
+    {"pids": {"s": "\u00e9\U00010348", "p2": "doi:10.18739/A2", "p3": "d"}, "cfg": (5, 1, "SHA-1")},
+    {"pids": {"s": "p3", "p2": "p33", "p3": "p"}, "cfg": (2, 3, "SHA-384")},
+]
 FMTS = [None, "f1", "followup"]
 
 
 class Case:
-    def __init__(self, idx, scratch, mode="th"):
+    def __init__(self, idx, scratch, mode="th", variant=0):
         self.mode = mode
         self.idx = idx
-        self.start_name, self.call, self.label = CASES[idx]
+        self.variant = variant
+        v = VARIANTS[variant]
+        self.pidmap = v["pids"]
+        self.pids = [self.pidmap[p] for p in PIDS]
+        self.cfg = dict(depth=v["cfg"][0], width=v["cfg"][1], algo=v["cfg"][2])
+        self.start_name, call_, self.label = CASES[idx]
+        self.call = self._map(call_)
+        self.start_ops = [self._map(o) for o in STARTS[self.start_name]]
         self.scratch = scratch
         self.contents = {k: make_content(v["cseed"], v["size"]) for k, v in SPEC.items()}
         self.docs = {k: make_content(v["cseed"], v["size"]) for k, v in DOCS.items()}
-        self.layout = absstate.Layout(3, 2, "SHA-256", DEFAULT_NS)
+        self.layout = absstate.Layout(self.cfg["depth"], self.cfg["width"], self.cfg["algo"], DEFAULT_NS)
         self.template = os.path.join(scratch, "template")
         self.rundir = os.path.join(scratch, "run")
         self.datadir = os.path.join(scratch, "data")
         self._prepare()
 
+    def _map(self, op):
+        op = dict(op)
+        if op.get("pid") in self.pidmap:
+            op["pid"] = self.pidmap[op["pid"]]
+        return op
+
+    def world(self, store_dir, store=None):
+        return World(self.scratch, self.contents, self.docs, pids=self.pids, fmts=FMTS, store_dir=store_dir,
+                     store=store, datadir=self.datadir, **self.cfg)
+
     def _prepare(self):
-        w = World(self.scratch, self.contents, self.docs, pids=PIDS, fmts=FMTS, store_dir="template",
-                  datadir=self.datadir)
-        for op in STARTS[self.start_name]:
+        w = self.world("template")
+        for op in self.start_ops:
             out, _e = w.execute(op)
             if not out.ok:
                 raise Inconclusive(f"start op failed: {op} {out.brief()}")
@@ -126,14 +151,14 @@ class Case:
         """A fresh instance in this case's synchronisation mode ('mp': USE_MULTIPROCESSING=True; the
         manager-backed lists are process-local stand-ins, single calls need no server processes)."""
         if self.mode != "mp":
-            return open_store(root)
+            return open_store(root, **self.cfg)
         import multiprocessing as _mp
         from .concengine import _LocalManager
         real = _mp.Manager
         os.environ["USE_MULTIPROCESSING"] = "True"
         _mp.Manager = _LocalManager
         try:
-            st = open_store(root)
+            st = open_store(root, **self.cfg)
         finally:
             _mp.Manager = real
             os.environ["USE_MULTIPROCESSING"] = "False"
@@ -142,14 +167,13 @@ class Case:
         return st
 
     def abstract(self, root):
-        return absstate.abstract(root, self.layout, PIDS, [(p, f) for p in PIDS for f in FMTS])
+        return absstate.abstract(root, self.layout, self.pids, [(p, f) for p in self.pids for f in FMTS])
 
     def fresh_run(self):
         shutil.rmtree(self.rundir, ignore_errors=True)
         shutil.copytree(self.template, self.rundir)
         store = self.open(self.rundir)
-        env = World(self.scratch, self.contents, self.docs, pids=PIDS, fmts=FMTS, store_dir="run", store=store,
-                    datadir=self.datadir)
+        env = self.world("run", store)
         env._paths = dict(self._paths)
         return store, env
 
@@ -174,15 +198,15 @@ class Case:
 
     def bystander_view(self, root, subject, store=None):
         """What every pid other than the subject can observe, through a FRESH instance."""
-        st = store or open_store(root)
+        st = store or self.open(root)
         a = self.abstract(root)
         view = {}
-        for pid in PIDS:
+        for pid in self.pids:
             if pid == subject:
                 continue
             v = {"pid_ref": a.pid_refs.get(pid)}
             r = call(st.retrieve_object, pid)
-            v["retrieve"] = hashlib.sha256(read_all_and_close(r.value)).hexdigest() if r.ok else r.exc_name
+            v["retrieve"] = self.layout.cid_of(read_all_and_close(r.value)) if r.ok else r.exc_name
             cid = a.pid_refs.get(pid)
             lines = a.cid_lines(cid) if cid in a.cid_refs else None
             v["listed"] = None if lines is None else sum(1 for ln in lines if ln == pid)
@@ -326,9 +350,8 @@ def run_fault(case, site, code, persistent):
         if kind in ("store", "tag") and case.ref_out.ok:
             if subject in a.pid_refs:
                 probs.append(("raised-but-pid-bound", {"error": out.brief(), "binding": a.pid_refs[subject]}))
-            fresh = open_store(case.rundir)
-            env2 = World(case.scratch, case.contents, case.docs, pids=PIDS, fmts=FMTS, store_dir="run", store=fresh,
-                         datadir=case.datadir)
+            fresh = case.open(case.rundir)
+            env2 = case.world("run", fresh)
             env2._paths = dict(case._paths)
             r, _e = env2.execute(case.call)
             if not r.ok:
@@ -344,7 +367,7 @@ def run_fault(case, site, code, persistent):
             if a.pid_refs.get(subject) != case.start_abs.pid_refs.get(subject):
                 probs.append(("earlier-binding-disturbed", {"before": case.start_abs.pid_refs.get(subject), "after": a.pid_refs.get(subject)}))
         if kind == "smeta":
-            fresh = open_store(case.rundir)
+            fresh = case.open(case.rundir)
             f = case.call.get("fmt")
             m = call(fresh.retrieve_metadata, subject, f) if f else call(fresh.retrieve_metadata, subject)
             want = case.start_abs.metadata.get((subject, f if f else DEFAULT_NS))
@@ -358,7 +381,7 @@ def run_fault(case, site, code, persistent):
     # 4. C08 hygiene
     for p in hygiene(store):
         probs.append(p)
-    for p in followup(store, case, [x for x in PIDS]):
+    for p in followup(store, case, list(case.pids)):
         probs.append(p)
     return {"outcome": out, "problems": probs, "fired": inj.fired, "injector": inj}
 
@@ -393,9 +416,8 @@ def run_crash(case, site):
     pid = os.fork()
     if pid == 0:
         try:
-            store = open_store(case.rundir)
-            env = World(case.scratch, case.contents, case.docs, pids=PIDS, fmts=FMTS, store_dir="run", store=store,
-                        datadir=case.datadir)
+            store = case.open(case.rundir)
+            env = case.world("run", store)
             env._paths = dict(case._paths)
             probe.install()
             probe.set_controller(CrashAt(case.rundir, site))
@@ -422,7 +444,7 @@ def judge_crash(case, recovery_content):
     notes = []
     subject = case.subject_pid()
     kind = case.call["op"]
-    store = open_store(case.rundir)
+    store = case.open(case.rundir)
     a = case.abstract(case.rundir)
     # bystanders exactly as before (and, for the fault-free effect on them, exactly as after)
     view = case.bystander_view(case.rundir, subject, store)
@@ -434,7 +456,7 @@ def judge_crash(case, recovery_content):
         if r.ok:
             got = read_all_and_close(r.value)
             cid = a.pid_refs.get(subject)
-            if hashlib.sha256(got).hexdigest() != cid:
+            if case.layout.cid_of(got) != cid:
                 probs.append(("interrupted-pid-served-wrong-bytes", {"cid": cid, "len": len(got)}))
             elif kind == "store" and got != case.contents[case.call["content"]] and \
                     cid != case.start_abs.pid_refs.get(subject):
@@ -447,8 +469,7 @@ def judge_crash(case, recovery_content):
         d = call(store.delete_object, subject)
         if not d.ok and d.exc_name != "PidRefsDoesNotExist":
             probs.append(("recovery-delete-failed", {"error": d.brief(), "msg": d.msg, "state": state_label}))
-        env = World(case.scratch, case.contents, case.docs, pids=PIDS, fmts=FMTS, store_dir="run", store=store,
-                    datadir=case.datadir)
+        env = case.world("run", store)
         env._paths = dict(case._paths)
         s, _e = env.execute(_st(subject, recovery_content))
         if not s.ok:
